@@ -212,6 +212,43 @@ fn rejection_block() -> &'static Vec<(Ev, String)> {
             if vocab::has_deg(ev) {
                 forms.extend(["2°(3)", "2rad(3)", "2°3", "2°abs(3)", "2rad3", "°(3)", "rad(3)", "2°pi", "(2)°(3)"].iter().map(|s| s.to_string()));
             }
+            // the same shapes with every kind of factor in front: every function name and alias as a call, each bracket
+            // kind, a literal, a factorial (a parser that runs its product hook once more after some call forms lets a
+            // superscript, a constant or @ continue the product there and nowhere else)
+            let mut atoms: Vec<String> = vec!["2".into(), "(2)".into(), "2.5".into()];
+            if vocab::has_floor_brackets(ev) {
+                atoms.push("⌊2⌋".into());
+                atoms.push("⌈2⌉".into());
+            }
+            if vocab::has_fact(ev) {
+                atoms.push("3!".into());
+                atoms.push("(3)!".into());
+            }
+            for f in vocab::funcs(ev) {
+                atoms.push(match f.arity {
+                    vocab::Arity::Two => format!("{}(2,3)", f.name),
+                    vocab::Arity::Var0 => format!("{}()", f.name),
+                    _ => format!("{}(2)", f.name),
+                });
+                if matches!(f.arity, vocab::Arity::Var0 | vocab::Arity::Var1) {
+                    atoms.push(format!("{}(2,3,4)", f.name));
+                }
+            }
+            for x in &atoms {
+                for k in &ks {
+                    for pat in ["KX", "XK", "X(3)K", "KX(3)", "X(3)^K(4)", "XK(3)"] {
+                        forms.push(pat.replace('X', x).replace('K', k));
+                    }
+                }
+                for pat in ["X²(3)", "X²3", "X(3)²(4)", "X(3)²4", "X3²4", "(3)X²(4)", "X²abs(3)", "X(3)²X"] {
+                    forms.push(pat.replace('X', x));
+                }
+                if vocab::has_deg(ev) {
+                    for pat in ["X°(3)", "X(3)°(4)", "Xrad(3)", "X(3)rad(4)", "X°3", "X(3)°X"] {
+                        forms.push(pat.replace('X', x));
+                    }
+                }
+            }
             let mut all: Vec<String> = Vec::new();
             for f in forms {
                 all.push(f.clone());
@@ -250,7 +287,7 @@ impl Prop for C12Prop {
         "C12"
     }
     fn rule(&self) -> String {
-        "Exhaustive short forms: left context {ε, 6/, 7%, 2*, 2+, 1-, 2^, -, +, (, 3&, 1|, 1<<, …} x A {literal, ( ), ⌊ ⌋, ⌈ ⌉, call, factorial} x B {( ), ⌊ ⌋, ⌈ ⌉, call, literal after a non-literal A} x suffix {ε, ^2, ², !, !^2, ^2!, ²!} x right context {ε, *2, +1, ^2, !, °, (2)} per evaluator; juxtaposition chains of 2..512 factors and sums of 2..512 implicit products; random trees (depth <=5) with juxtaposition nodes in every context; rejection block: every constant, @, superscript, ° and rad placed so that it would have to start or continue a product, alone and embedded. Oracles: (a) each juxtaposition A R of the reference parse rewritten to (A*(R)) - all at once and one at a time - must give the same outcome bit for bit; (b) exact reference evaluation of the reference parse; (c) rejection block must be Err. non-trivial = a product that is an operand of an operator of multiplicative or tighter level or of a prefix sign, or whose right factor carries a suffix; rejection cases are counted separately (class rejection-block) and included in distinct.".into()
+        "Exhaustive short forms: left context {ε, 6/, 7%, 2*, 2+, 1-, 2^, -, +, (, 3&, 1|, 1<<, …} x A {literal, ( ), ⌊ ⌋, ⌈ ⌉, call, factorial} x B {( ), ⌊ ⌋, ⌈ ⌉, call, literal after a non-literal A} x suffix {ε, ^2, ², !, !^2, ^2!, ²!} x right context {ε, *2, +1, ^2, !, °, (2)} per evaluator; juxtaposition chains of 2..512 factors and sums of 2..512 implicit products; random trees (depth <=5) with juxtaposition nodes in every context; rejection block: every constant, @, superscript, ° and rad placed so that it would have to start or continue a product, alone and embedded, and the same shapes behind every kind of left factor (every function name and alias as a call, every bracket kind, literal, factorial). Oracles: (a) each juxtaposition A R of the reference parse rewritten to (A*(R)) - all at once and one at a time - must give the same outcome bit for bit; (b) exact reference evaluation of the reference parse; (c) rejection block must be Err. non-trivial = a product that is an operand of an operator of multiplicative or tighter level or of a prefix sign, or whose right factor carries a suffix; rejection cases are counted separately (class rejection-block) and included in distinct.".into()
     }
     fn subs(&self, tier: Tier) -> Vec<Sub> {
         vec![
